@@ -26,3 +26,6 @@ def run(ctx, R):
     delivery.check_serial_drain(ctx, R, cls)
     delivery.check_emit_sig(ctx, R, cls)
     delivery.check_pass_value(ctx, R, cls)
+
+
+META['level'] += ' MAILBOX also requires a notification after every store into the slot and a slot that wraps the element (no element value can look like the empty marker).'
